@@ -2,13 +2,16 @@ package c02
 
 import (
 	"fmt"
+	"math/rand/v2"
 	"os"
+	"reflect"
 	"sort"
 	"strings"
 	"testing"
 	"time"
 
 	"github.com/insomniacslk/dhcp/dhcpv6"
+	"github.com/insomniacslk/dhcp/rfc1035label"
 	"verif/harness/gen6"
 	"verif/harness/mon"
 	"verif/harness/proj"
@@ -78,6 +81,11 @@ func runCase(r *mon.Rec, idx int, hits map[int]int) {
 		r.Violate("C02:wire-mismatch:"+tree.KindAt(ws, rs), "emitted bytes are not the RFC layout of the field values: "+tree.Diff(ws, rs), rp)
 		return
 	}
+	// Values with a history: the decoded message is edited in place (names of label sets element by element, octets of
+	// opaque values) and is then itself "a DHCPv6 message value": what it encodes to must decode to what it now holds.
+	if !editedRoundTrip(r, rng, g, m2, rp) {
+		return
+	}
 	paths := want.Paths()
 	sort.Strings(paths)
 	kinds := map[string]int{}
@@ -94,6 +102,101 @@ func runCase(r *mon.Rec, idx int, hits map[int]int) {
 	if r.NSamples() < 4 && len(wire) < 120 && nTyped >= 2 {
 		r.Sample(map[string]any{"idx": idx, "wire": mon.Hex(wire), "tree": ws})
 	}
+}
+
+var labelsType = reflect.TypeOf(rfc1035label.Labels{})
+var bytesType = reflect.TypeOf([]byte(nil))
+
+// editInPlace walks the exported fields of a decoded value and edits leaves through the memory the value already
+// owns: elements of a label set's name list are overwritten, single bits of opaque []byte values are flipped.
+// Nothing is appended, re-sliced or replaced, so every cache the library keeps beside a public field stays in place.
+func editInPlace(v reflect.Value, rng *rand.Rand, g *gen6.G, n *int) {
+	switch v.Kind() {
+	case reflect.Pointer, reflect.Interface:
+		if !v.IsNil() {
+			editInPlace(v.Elem(), rng, g, n)
+		}
+	case reflect.Struct:
+		if v.Type() == labelsType {
+			f := v.FieldByName("Labels")
+			for i := 0; i < f.Len(); i++ {
+				if e := f.Index(i); e.CanSet() && rng.IntN(2) == 0 {
+					e.SetString(g.Name())
+					*n++
+				}
+			}
+			return
+		}
+		for i := 0; i < v.NumField(); i++ {
+			if v.Type().Field(i).IsExported() {
+				editInPlace(v.Field(i), rng, g, n)
+			}
+		}
+	case reflect.Slice:
+		if v.Type() == bytesType {
+			if v.Len() > 0 && rng.IntN(3) == 0 {
+				v.Bytes()[rng.IntN(v.Len())] ^= 1 << rng.UintN(8)
+				*n++
+			}
+			return
+		}
+		if v.Type().Elem().Kind() == reflect.Uint8 {
+			return // addresses: their admissible values depend on sibling fields (prefix lengths)
+		}
+		for i := 0; i < v.Len(); i++ {
+			editInPlace(v.Index(i), rng, g, n)
+		}
+	}
+}
+
+func editedRoundTrip(r *mon.Rec, rng *rand.Rand, g *gen6.G, m dhcpv6.DHCPv6, rp replay) bool {
+	edits := 0
+	var before, after, got string
+	var wire []byte
+	var err error
+	pan, val, st := mon.Guard(func() {
+		before = proj.M6(m).String()
+		editInPlace(reflect.ValueOf(m), rng, g, &edits)
+		if edits == 0 {
+			return
+		}
+		after = proj.M6(m).String()
+		wire = m.ToBytes()
+		var m3 dhcpv6.DHCPv6
+		if m3, err = dhcpv6.FromBytes(wire); err == nil {
+			got = proj.M6(m3).String()
+		}
+	})
+	if pan {
+		r.Violate("C02:edited:panic:"+mon.LibFrame(st), fmt.Sprint(val), rp)
+		return false
+	}
+	if edits == 0 || after == before {
+		return true
+	}
+	r.Count("edited_values", 1)
+	r.Count("in_place_edits", edits)
+	if len(wire) > 65535 {
+		return true
+	}
+	if err != nil {
+		r.Violate("C02:edited:decode-error:"+firstKindDiffErr(err), fmt.Sprintf("a decoded message edited in place encodes to bytes that do not decode: %v; value=%s", err, trunc(after)), rp)
+		return false
+	}
+	if got != after {
+		r.Violate("C02:edited:roundtrip-mismatch:"+tree.KindAt(after, got), "a decoded message was edited in place; its encoding decodes to something else than the value it holds: "+tree.Diff(after, got), rp)
+		return false
+	}
+	if res := ref6.Decode(wire); res.V == ref6.Accept {
+		if rs := res.Tree.String(); rs != after {
+			r.Violate("C02:edited:wire-mismatch:"+tree.KindAt(after, rs), "bytes emitted for a message edited in place are not the RFC layout of its field values: "+tree.Diff(after, rs), rp)
+			return false
+		}
+	} else if res.V == ref6.Reject {
+		r.Violate("C02:edited:wire-rejected:"+res.Why, "independent RFC decoder rejects the bytes emitted for a message edited in place: "+res.Why, rp)
+		return false
+	}
+	return true
 }
 
 func dedup(s []string) []string {
